@@ -53,6 +53,9 @@ type RacePlan struct {
 
 	Tie  bool `json:"runtime_arbitrated,omitempty"` // deliberately coinciding instants
 	Reps int  `json:"reps,omitempty"`               // repetitions inside the run (tie mode)
+	// SharedDialer: the repetitions go through ONE Dialer value (an application
+	// keeps its Dialer), not through a fresh one each.
+	SharedDialer bool `json:"shared_dialer,omitempty"`
 }
 
 func (p *RacePlan) delay() time.Duration {
@@ -351,6 +354,7 @@ func executeRace(t *testing.T, prop string, seed uint64, p *RacePlan) *core.Resu
 	msg := core.Bubble(t, func(t *testing.T) {
 		bubble0 := time.Now()
 		g0 := runtime.NumGoroutine()
+		var shared *ech.Dialer[*simConn]
 		for r := 0; r < reps; r++ {
 			rs := &raceState{t0: time.Now(), relAt: relAt}
 			rl := &repLog{rs: rs, c: never}
@@ -359,8 +363,14 @@ func executeRace(t *testing.T, prop string, seed uint64, p *RacePlan) *core.Resu
 				MaxConcurrency:   p.MaxConc,
 				ConcurrencyDelay: time.Duration(p.DelayNs),
 				Timeout:          time.Duration(p.TimeoutNs),
-				DialFunc:         rs.dialFunc(p, index),
 			}
+			if p.SharedDialer {
+				if shared == nil {
+					shared = d
+				}
+				d = shared
+			}
+			d.DialFunc = rs.dialFunc(p, index)
 			ctx, cancel := context.WithCancel(context.Background())
 			var stop func() bool
 			switch p.CancelKind {
